@@ -545,7 +545,7 @@ def run(ck):
             body = to_tuple(o["body"])
             prog = build_case(tree, tuple(o["ppath"]), o["idx"], body, o.get("as_let", False))
             cases.append((tree, tuple(o["ppath"]), o["idx"], body, o["info"], o.get("as_let", False), prog))
-    n_trees = 300 if ck.tier == "quick" else 3000
+    n_trees = 600 if ck.tier == "quick" else 6000
     refs_per_pos = 5 if ck.tier == "quick" else 8
     rng = ck.rng.fork("trees")
     n_weird = 0
@@ -645,7 +645,7 @@ def run(ck):
         tree, ppath, idx, body, info, as_let, prog = cases[i]
         o = {"tree": tree, "ppath": list(ppath), "idx": idx, "body": body, "info": info, "as_let": as_let,
              "source": src_items(prog), "implementation": out_i[i],
-             "how": "printf '%s\\n' \"$(python3 - <<< 'print(SOURCE.replace(chr(10),chr(92)+chr(110)))')\" | .cache/target/lang/debug/modules_run   (or: ./check C17 --replay <this file>)"}
+             "how": "./check C17 --replay <this file>   (or: write `source` on one line with newlines as \\n and pipe it to .cache/target/lang/debug/modules_run)"}
         o.update(extra)
         return o
 
